@@ -137,8 +137,11 @@ pub fn emit(idx: &Index, ok: &BTreeMap<String, Translated>, out: &Path, harness:
             Some(f) => f,
             None => continue,
         };
-        if !ret_ok(idx, &fi.ret) || fi.self_kind == SelfKind::MutRef {
+        if !ret_ok(idx, &fi.ret) || fi.self_kind == SelfKind::MutRef || fi.param_ref.iter().any(|r| *r == 2) {
             continue;
+        }
+        if fi.self_ty.as_deref() == Some("Data") || matches!(fi.trait_name.as_deref(), Some("Index") | Some("IndexMut")) {
+            continue; // generic wrapper: hand dispatch
         }
         // receiver
         let mut pats: Vec<String> = vec![];
@@ -212,8 +215,10 @@ pub fn emit(idx: &Index, ok: &BTreeMap<String, Translated>, out: &Path, harness:
             }
         }
         for (pi, (_, pt)) in fi.params.iter().enumerate() {
-            match param_wire(idx, pt, ai, fi.param_ref.get(pi).copied().unwrap_or(0) == 1) {
+            let pr = fi.param_ref.get(pi).copied().unwrap_or(0);
+            match param_wire(idx, pt, ai, pr == 1 || pr == 3) {
                 Some((p, l, r, s)) => {
+                    let r = if pr == 3 { format!("({}[..]).try_into().unwrap()", r) } else { r };
                     pats.push(p);
                     lean_args.push(l);
                     rust_args.push(r);
